@@ -439,8 +439,8 @@ func (x *Exec) havocLoop(s *State, f *ssa.Function, body map[*ssa.BasicBlock]boo
 		}
 	}
 	for k := range keys {
-		if strings.HasPrefix(k, "R:") {
-			x.havocKey(s, k) // a range iterator advanced in the body (calls never touch it)
+		if strings.HasPrefix(k, "R:") || k == "ghost:inpool" {
+			x.havocKey(s, k) // advanced / changed in the body itself (calls never touch it)
 		}
 	}
 	if all {
